@@ -938,6 +938,10 @@ func runC12(c *core.Ctx) core.Meta {
 	st16 := c.Rule("R12.16", "the driver is woken by the arrival of a message and keeps ticking only while a tick reports progress: in its receive handlers (functions with a bool result, helpers expanded and their results followed) no `return false` is reachable after RetrieveIncoming took a message. A handler that consumes one of several responses of a command and reports no progress lets the engine run dry with the next response still queued; the command is never retired and DrainCommandQueue / LaunchKernel never return (unified multi-GPU kernels: one response per GPU)", 6)
 	checkRetrievedThenGivenUp(c, st16, "R12.16", pd, "nobody schedules another tick for a message that is already queued behind it, the engine runs out of events and the wait on the command queue never returns")
 
+	// ---------------- R12.17 a listener / command / response is removed alone ----------------
+	st17 := c.Rule("R12.17", "removing one waiter, command or response from a list of the driver removes exactly that one: every append / in-place copy of the driver package that joins two windows of the same slice (the removal idiom of Unsubscribe, of the response matching and of the queues) takes element i out and nothing else - append(s[:i], s[i+1:]...), or copy(s[i:], s[i+1:]) followed by cutting the slice by one. A shifted window drops a live listener: its DrainCommandQueue is never notified again and blocks although the queue is empty", 2)
+	checkSliceRemovalIdiom(c, st17, "R12.17", pd, "with two threads waiting on one queue the earlier subscriber's departure silently drops the later one, whose wait never returns")
+
 	// ---------------- R12.11 what a launch reads was written earlier on its own queue ----------------
 	st11 := c.Rule("R12.11", "commands of one queue take effect in order, queues are not ordered against each other: every device address that EnqueueLaunchKernel puts into the dispatch packet or the launch command (code object, kernel arguments, packet) is the destination of an EnqueueMemCopyH2D on the same queue on every path to the launch command (must-pass on the flow graph); a launch that relies on a copy enqueued on another queue can start before that copy has completed", 3)
 	if fn := c.MustFunc("R12.11", driverPkg, "Driver.EnqueueLaunchKernel"); fn != nil {
